@@ -16,6 +16,42 @@ from ..core import Ctx, Evidence, Finding, witness_of
 from ..values import E, Pdu, Sym
 
 
+def _cancel_is_final(ctx: Ctx, ev: Evidence) -> list[Finding]:
+    """C12-R4: once the receiver has recorded a cancellation (Cancel.request or EOF (cancel)), that transaction requests no
+    more retransmissions and its recorded condition is not replaced by a success: every edge leaving a BUSY node whose
+    completion disposition is CANCELED is inspected."""
+    ev.rule("C12-R4", "receiver: a transaction recorded as cancelled emits no NAK PDU and never has its condition replaced by NO_ERROR / its delivery code by DATA_COMPLETE", 1)
+    out: list[Finding] = []
+    a = ctx.ats("dest")
+    h = a.h
+    n_edges = 0
+    bad: dict[str, tuple] = {}
+    for e in a.edges:
+        if state_of(a, e.pre) != "BUSY" or ename(h.wget(e.pre, "_params.completion_disposition")) != "CANCELED":
+            continue
+        if e.label[0] in ("reset",):
+            continue
+        n_edges += 1
+        for x in e.ev:
+            # only while the same transaction is still the cancelled one (a reset/new transaction re-creates the parameter block)
+            if ename(h.ew(x.watch, "_params.completion_disposition")) != "CANCELED":
+                continue
+            if x.kind == "pdu" and x.name.startswith("NAK"):
+                bad.setdefault(f"dest handler | cancelled transaction requests retransmission | {x.func.split('.')[-1]}", (x, e, "a NAK PDU is emitted for a transaction that is already recorded as cancelled"))
+            if x.kind == "store" and x.name == "FinishedParams.condition_code" and ename(x.args[0]) == "NO_ERROR":
+                bad.setdefault(f"dest handler | cancelled transaction: condition replaced by NO_ERROR | {x.func.split('.')[-1]}", (x, e, "the condition recorded for a cancelled transaction is overwritten with NO_ERROR: the user and the peer are told the transfer succeeded"))
+            if x.kind == "store" and x.name == "FinishedParams.delivery_code" and ename(x.args[0]) == "DATA_COMPLETE" and step_of(a, e.pre) != "IDLE":
+                bad.setdefault(f"dest handler | cancelled transaction: delivery code set to DATA_COMPLETE | {x.func.split('.')[-1]}", (x, e, "a cancelled transaction is later marked DATA_COMPLETE"))
+    if n_edges == 0:
+        from ..model import AnalysisError
+        raise AnalysisError("no edge leaves a cancelled busy state of the destination ATS (rule blind)")
+    ev.inst("C12-R4", f"dest handler | {n_edges} edges from cancelled busy states inspected: {len(bad)} offending constructs", "ok" if not bad else "violation")
+    for k, (x, e, msg) in sorted(bad.items()):
+        ev.inst("C12-R4", k, "violation", x.site)
+        out.append(Finding("C12-R4", k, msg, x.site, witness_of(a, e)))
+    return out
+
+
 def check(ctx: Ctx, ev: Evidence) -> list[Finding]:
     out: list[Finding] = []
     ev.rule("C12-R1", "cancel_request return table (idle / foreign id / own id) and absence of cross-enum comparisons", 6)
@@ -185,5 +221,6 @@ def check(ctx: Ctx, ev: Evidence) -> list[Finding]:
                             ev.inst("C12-R3", k2, "ok" if same else "violation")
                             if not same:
                                 out.append(Finding("C12-R3", "dest handler | cancelled completion | Finished PDU differs from the indication", "the Finished PDU of a cancelled transaction carries another condition/fault location than the indication", fin[0].site, witness_of(a, e)))
+    out += _cancel_is_final(ctx, ev)
     ev.extra["explanation"] = "every cancel_request edge (state x id match) and every EOF(cancel)/cancelled-completion edge of both handlers' abstract transition systems; forward reachability after a successful sender cancel"
     return out
